@@ -201,6 +201,28 @@ def _tomo_process(w, o):
     return [round(float(x), 9) for x in np.real(np.diag(rho))]
 
 
+class _Impostor:
+    """A callable that is not a function: `experiment = _Impostor()` is refused
+    (TypeError).  If the refusal takes effect anyway, it answers every circuit
+    with the same made-up result."""
+
+    def __init__(self, n):
+        self.n = n
+
+    def __call__(self, circuits, *a):
+        return [{lw.State([1, 0] * self.n): 1.0} for _ in circuits]
+
+
+@op("tomo_bad_experiment")
+def _tomo_bad_experiment(w, o):
+    """F-reject on the tomography object: an assignment the setter refuses."""
+    t = w.get("tomo", o["t"])
+    n = w.m("tomo", o["t"])["n"]
+    w.stats["fault:reject_issued"] += 1
+    bad = _Impostor(n) if o.get("how", "object") == "object" else 17
+    w.call(setattr, t, "experiment", bad)
+
+
 @op("tomo_rho")
 def _tomo_rho(w, o):
     t = w.get("tomo", o["t"])
@@ -230,7 +252,7 @@ class Tomographer(Client):
                 return o
         tid = self.pick(mine)
         k = r.choice(["process", "process", "process", "fault", "profile",
-                      "rho", "edit_base", "edit_base", "edit_base"])
+                      "rho", "edit_base", "edit_base", "edit_base", "reject"])
         if k == "process":
             return {"op": "tomo_process", "t": tid, "perm": r.randrange(1 << 30)}
         if k == "fault":
@@ -246,6 +268,11 @@ class Tomographer(Client):
                     "order_seed": r.randrange(1 << 20)}
         if k == "rho":
             return {"op": "tomo_rho", "t": tid}
+        if k == "reject":
+            if not cfg.get("faults"):
+                return None
+            return {"op": "tomo_bad_experiment", "t": tid,
+                    "how": r.choice(["object", "object", "int"])}
         # the user keeps editing the base circuit between runs (legal)
         return self.base_edit(w.meta["tomo"][tid]["circuit"])
 
@@ -415,11 +442,28 @@ class TomoMonitor(Monitor):
     def __init__(self, world):
         super().__init__(world)
         self.last_rho: dict = {}
+        self.attempts_before = None
+
+    def pre(self, op, snap):
+        self.attempts_before = None
+        if op["op"] == "tomo_process" and self.w.has("tomo", op["t"]):
+            self.attempts_before = self.w.meta["tomo"][op["t"]]["attempts"]
 
     def post(self, op, out, before, after):
         w = self.w
         k = op["op"]
         vs = []
+        if k == "tomo_bad_experiment" and out["status"] == "ok":
+            return [self.v({"kind": "invalid_experiment_accepted"},
+                           "a non-function experiment was assigned without error")]
+        if k == "tomo_process" and w.has("tomo", op["t"]) \
+                and self.attempts_before is not None:
+            called = w.meta["tomo"][op["t"]]["attempts"] - self.attempts_before
+            if (called != 1) if out["status"] == "ok" else (called > 1):
+                return [self.v({"kind": "configured_callback_calls",
+                                "calls": called},
+                               f"process() called the configured experiment "
+                               f"{called} times")]
         # (5) frame condition during tomography operations
         if k in ("tomo_process", "tomo_new", "tomo_rho"):
             for key, old in before.items():
@@ -536,6 +580,8 @@ class TomoMonitor(Monitor):
             return [self.v({"kind": "rho_shape"}, f"{rho.shape}")]
         if not np.allclose(rho, rho.conj().T, atol=1e-9):
             return [self.v({"kind": "rho_not_hermitian"}, "")]
+        if not np.all(np.isfinite(rho)):
+            return [self.v({"kind": "rho_not_finite"}, "rho contains nan or inf")]
         if abs(np.trace(rho) - 1) > 1e-9:
             return [self.v({"kind": "rho_trace"}, f"trace {np.trace(rho)}")]
         d = float(np.max(np.abs(rho - ref)))
@@ -547,7 +593,7 @@ class TomoMonitor(Monitor):
             f = t.fidelity(ref)
         except Exception as e:  # noqa: BLE001
             return [self.v({"kind": "fidelity_raised"}, repr(e))]
-        if abs(f - 1) > 1e-6:
+        if not abs(f - 1) <= 1e-6:
             return [self.v({"kind": "fidelity_not_one"}, f"fidelity {f}")]
         # (3) identical under every permutation: compare with the previous
         # process() of the same object if the base circuit did not change
